@@ -1,5 +1,5 @@
 """C13 -- solving again gives fresh, consistent answers."""
-from . import state
+from . import state, formula
 
 LEVEL = "other"
 EXPLANATION = ("Per-solve freshness (new wrapper, rebinding of the tracking lists and of the objective leaf, regeneration of class and "
@@ -15,4 +15,5 @@ def run(ctx):
     n = state.r_accum(ctx)
     state.r_memo(ctx)
     state.r_memo_new(ctx)
+    formula.r_regen(ctx)
     ctx.floor("accumulating writes examined", n, 8)
